@@ -120,15 +120,53 @@ def bigwalk(rec, b, rng):
     rec.op(2, {'op': 'iand', 'other': 1, 'ignore': False})
 
 
+def hugewalk(rec, b, rng):
+    """More than 256 names on an axis: derivations that drop hundreds of names, then calls that use a dropped
+    name again (a forgotten membership entry shows only then)."""
+    onames = [f'o{i}' for i in range(300)]
+    pnames = [f'p{i}' for i in range(8)]
+    rec.reset(b)
+    d = {'objs': onames, 'props': pnames, 'cells': [[o, pnames[i % 8]] for i, o in enumerate(onames) if i % 3]}
+    t = {'objs': pnames, 'props': onames, 'cells': [[c[1], c[0]] for c in d['cells']]}
+    rec.new(1, d)
+    rec.new(2, t)
+    keep = onames[5:15]
+    G = {'given': True, 'names': keep}
+    N = {'given': False, 'names': []}
+    rec.derive(1, {'op': 'take', 'objects': G, 'properties': N, 'reorder': False}, 3)        # drops 290 objects
+    rec.derive(2, {'op': 'take', 'objects': N, 'properties': G, 'reorder': False}, 4)        # drops 290 properties
+    rec.new(5, {'objs': onames[10:20], 'props': pnames[:4], 'cells': [[onames[12], pnames[12 % 4]]]})
+    rec.derive(1, {'op': 'intersection', 'other': 5, 'ignore': True}, 6)                     # drops 290 objects
+    for h, name_axis in ((3, 'o'), (6, 'o'), (4, 'p')):
+        dropped = onames[100]
+        if name_axis == 'o':
+            rec.op(h, {'op': 'add_object', 'o': dropped, 'names': [pnames[0]]})
+            rec.op(h, {'op': 'setitem', 'o': onames[200], 'p': pnames[1], 'v': True})
+            rec.op(h, {'op': 'rename_object', 'old': keep[0] if h == 3 else onames[12], 'new': onames[250]})
+            rec.op(h, {'op': 'remove_object', 'o': onames[299]})
+        else:
+            rec.op(h, {'op': 'add_property', 'p': dropped, 'names': [pnames[0]]})
+            rec.op(h, {'op': 'setitem', 'o': pnames[1], 'p': onames[200], 'v': True})
+            rec.op(h, {'op': 'rename_property', 'old': keep[0], 'new': onames[250]})
+            rec.op(h, {'op': 'remove_property', 'p': onames[299]})
+    rec.derive(3, {'op': 'union', 'other': 6, 'ignore': False}, 7)
+    rec.op(1, {'op': 'intersection_update', 'other': 5, 'ignore': True})
+    rec.op(1, {'op': 'add_object', 'o': onames[100], 'names': []})
+    rec.op(2, {'op': 'iand', 'other': 4, 'ignore': False})
+    rec.op(2, {'op': 'set_property', 'p': onames[101], 'names': [pnames[0]]})
+
+
 def walk(rec, b, rng, steps, big):
     if b % 40 == 5:
         return bigwalk(rec, b, rng)
+    if b % 40 == 25:
+        return hugewalk(rec, b, rng)
     if big:
         onames = [f'o{i}' for i in range(5)] + ['o\u00e4\u0416', 's1', 's2']
         pnames = [f'p{i}' for i in range(5)] + ['p\u00fc \u65e5', 's1', 's2']
     else:
-        onames = ['a', 'b', 'c', 's', 'caf\u00e9', 'cafe\u0301']
-        pnames = ['x', 'y', 'z', 's', '\u00c5', '\u212b']
+        onames = ['a', 'b', 'c', 's', 'caf\u00e9', 'cafe\u0301', '', '0']
+        pnames = ['x', 'y', 'z', 's', '\u00c5', '\u212b', '', '0']
     rec.reset(b)
     nexth = 1
     for _ in range(rng.randint(1, 3)):
